@@ -199,6 +199,19 @@ func (g *G) anyMessage() (util.Message, string) {
 // anyMessageR also returns the recipe of a controller-side message as a Gallina term
 // "(xid, recipe)" ("" for switch-side messages, which have no recipe model)
 func (g *G) anyMessageR() (util.Message, string, string) {
+	if g.r.Intn(24) == 0 { // a bundle-add with experimenter properties (no recipe model: the properties are outside Model/Build.v)
+		inner, _, ik, _ := g.message(1)
+		ba := &of.BundleAdd{BundleID: uint32(g.r.Bits(32)), Flags: uint16(g.r.Intn(4)), Message: inner}
+		for k := 1 + g.r.Intn(3); k > 0; k-- {
+			p := of.NewBundlePropertyExperimenter()
+			p.ExperimenterID, p.ExperimenterType = uint32(g.r.Bits(32)), uint32(g.r.Bits(32))
+			if g.r.Bool() {
+				p.Length = p.Len()
+			}
+			ba.Properties = append(ba.Properties, *p)
+		}
+		return of.NewBundleAdd(ba), "bundle-add+properties(" + ik + ")", ""
+	}
 	if g.r.Intn(2) == 0 {
 		m, t, k, xid := g.message(2)
 		return m, k, fmt.Sprintf("%d %s", xid, t)
